@@ -12,7 +12,7 @@ for d in sorted(glob.glob(os.path.join(HERE, "seeded", "*-*"))):
         notes = " ".join(txt)[:230].replace("|", "/")
     if m.get("summary_text"):
         notes = m["summary_text"]
-    if os.path.basename(d).startswith("benign-"):
+    if os.path.basename(d).startswith("benign"):
         loud = [c["check"] for c in m["checks"] if c["violation_lines"]]
         rows.append("| %s | %s | all of %s | %s |" % (
             os.path.basename(d), notes, ", ".join(c["check"] for c in m["checks"]) if len(m["checks"]) < 20 else "C01–C20",
